@@ -876,3 +876,255 @@ Proof.
   - intros Hf Hcl. rewrite (finished_no_pending c i Hf), Hcl in Hbal. split; [lia|].
     intros Hat Hno. destruct (HC i Hat) as [H|H]; [contradiction|lia].
 Qed.
+(* ================================================================== 5. after the runtime is closed *)
+Definition step_invoke (c : config) (k : nat) (t : thr) (o : op) (rest : list op) : config :=
+  {| st := st c; thrs := replace_nth k {| todo := rest; cur := Some (o, clk c, compile o) |} (thrs c);
+     clk := S (clk c); hist := hist c; hold := hold c |}.
+Definition step_return (c : config) (k : nat) (t : thr) (o : op) (inv : nat) (r : ret) : config :=
+  {| st := st c; thrs := replace_nth k {| todo := todo t; cur := None |} (thrs c); clk := S (clk c);
+     hist := {| e_thr := k; e_op := o; e_ret := r; e_inv := inv; e_res := clk c |} :: hist c; hold := hold c |}.
+Definition step_micro (a : bool) (c : config) (k : nat) (t : thr) (o : op) (inv : nat) (m : micro) (ms : list micro) : config :=
+  {| st := fst (mstep (st c) m ms);
+     thrs := replace_nth k {| todo := todo t; cur := Some (o, inv, snd (mstep (st c) m ms)) |} (thrs c);
+     clk := S (clk c); hist := hist c;
+     hold := (if a then (if in_window (snd (mstep (st c) m ms)) then Some k else None) else None) |}.
+
+Lemma tstep_cases a c k c' : tstep a c k = Some c' ->
+  exists t, nth_error (thrs c) k = Some t /\
+    ((exists o rest, cur t = None /\ todo t = o :: rest /\ c' = step_invoke c k t o rest) \/
+     (exists o inv r ms, cur t = Some (o, inv, MRet r :: ms) /\ c' = step_return c k t o inv r) \/
+     (exists o inv m ms, cur t = Some (o, inv, m :: ms) /\ is_ret m = false /\ c' = step_micro a c k t o inv m ms)).
+Proof.
+  unfold tstep. destruct (nth_error (thrs c) k) as [t|] eqn:Hn; [|discriminate].
+  destruct (a && blocked (hold c) k); [discriminate|]. exists t. split; [reflexivity|].
+  destruct (cur t) as [[[o inv] ms]|] eqn:Hc.
+  - destruct ms as [|m ms]; [discriminate|]. destruct (is_ret m) eqn:Hr.
+    + destruct m; try discriminate Hr. inversion H; subst. right. left. do 4 eexists. split; reflexivity.
+    + right. right. exists o, inv, m, ms. split; [reflexivity|]. split; [exact Hr|].
+      unfold step_micro. destruct m; try discriminate Hr; destruct (mstep (st c) _ ms) as [s' ms'] eqn:E; inversion H; reflexivity.
+  - destruct (todo t) as [|o rest] eqn:Hd; [discriminate|]. inversion H; subst. left. exists o, rest. auto.
+Qed.
+
+Lemma in_replace_nth {A} k (x : A) l y : In y (replace_nth k x l) -> y = x \/ In y l.
+Proof.
+  revert k. induction l as [|a l IH]; intros [|k]; cbn; auto.
+  - intros [H|H]; auto.
+  - intros [H|H]; auto. destruct (IH _ H); auto.
+Qed.
+
+(* ---- clocks: invocation < response < now *)
+Definition clkinv (c : config) : Prop :=
+  (forall e, In e (hist c) -> e_inv e < e_res e /\ e_res e < clk c) /\
+  (forall t o inv ms, In t (thrs c) -> cur t = Some (o, inv, ms) -> inv < clk c).
+
+Lemma tstep_clkinv a c k c' : clkinv c -> tstep a c k = Some c' -> clkinv c'.
+Proof.
+  intros [Hh Ht] H. apply tstep_cases in H. destruct H as (t & Hn & [H|[H|H]]).
+  - destruct H as (o & rest & Hc & Hd & ->). split; cbn [step_invoke hist thrs clk].
+    + intros e He. specialize (Hh e He). lia.
+    + intros t' o' inv' ms' Hin Hc'. apply in_replace_nth in Hin. destruct Hin as [->|Hin].
+      * cbn in Hc'. inversion Hc'; subst. lia.
+      * specialize (Ht _ _ _ _ Hin Hc'). lia.
+  - destruct H as (o & inv & r & ms & Hc & ->). split; cbn [step_return hist thrs clk].
+    + intros e [<-|He]; cbn [e_inv e_res].
+      * pose proof (Ht _ _ _ _ (nth_error_In _ _ Hn) Hc). lia.
+      * specialize (Hh e He). lia.
+    + intros t' o' inv' ms' Hin Hc'. apply in_replace_nth in Hin. destruct Hin as [->|Hin]; [discriminate|].
+      specialize (Ht _ _ _ _ Hin Hc'). lia.
+  - destruct H as (o & inv & m & ms & Hc & Hr & ->). split; cbn [step_micro hist thrs clk].
+    + intros e He. specialize (Hh e He). lia.
+    + intros t' o' inv' ms' Hin Hc'. apply in_replace_nth in Hin. destruct Hin as [->|Hin].
+      * cbn in Hc'. inversion Hc'; subst. pose proof (Ht _ _ _ _ (nth_error_In _ _ Hn) Hc). lia.
+      * specialize (Ht _ _ _ _ Hin Hc'). lia.
+Qed.
+
+Lemma run_sched_clkinv a sched : forall c c', clkinv c -> run_sched a c sched = Some c' -> clkinv c'.
+Proof.
+  induction sched as [|k r IH]; intros c c' Hi H; cbn in H.
+  - inversion H; subst. exact Hi.
+  - destruct (tstep a c k) as [c1|] eqn:Ht; [|discriminate]. eapply IH; [|exact H]. eapply tstep_clkinv; eauto.
+Qed.
+
+Lemma init_clkinv s prog : clkinv (init s prog).
+Proof.
+  split; cbn [init hist thrs clk]; [intros e []|].
+  intros t o inv ms Hin Hc. apply in_map_iff in Hin. destruct Hin as (ops & <- & _). discriminate.
+Qed.
+
+(* ---- the closed flag of the runtime is never reset; closed words are never reset *)
+Lemma mstep_rt_closed s m k : rt_closed s = true -> rt_closed (fst (mstep s m k)) = true.
+Proof.
+  intros H. destruct m; cbn [mstep];
+    repeat match goal with |- context [if ?b then _ else _] => destruct b eqn:?
+                         | |- context [match ?x with Some _ => _ | None => _ end] => destruct x eqn:? end;
+    cbn [fst rt_closed set_closedw]; auto; congruence.
+Qed.
+
+Lemma mstep_closed_mono s m k i : is_closed s i = true -> is_closed (fst (mstep s m k)) i = true.
+Proof.
+  unfold is_closed. intros H. destruct m; cbn [mstep];
+    repeat match goal with |- context [if ?b then _ else _] => destruct b
+                         | |- context [match nmap ?x with Some _ => _ | None => _ end] => destruct (nmap x) end;
+    cbn [fst closedw set_closedw]; auto.
+  - cbn [lookup]. destruct (i =? i0); auto.
+  - rewrite lookup_app_map. destruct (mem i _); auto.
+Qed.
+
+(* ---- every compile / instantiate invoked once the runtime's closed flag is set fails *)
+Definition icomp (o : op) : bool := match o with OInst _ _ _ => true | OCompile _ => true | _ => false end.
+
+Definition rtinv (T : nat) (c : config) : Prop :=
+  rt_closed (st c) = true /\
+  (forall e, In e (hist c) -> T <= e_inv e -> icomp (e_op e) = true -> e_ret e = RErrClosed) /\
+  (forall t o inv ms, In t (thrs c) -> cur t = Some (o, inv, ms) -> T <= inv -> icomp o = true ->
+     ms = compile o \/ ms = [MRet RErrClosed]).
+
+Lemma compile_icomp o : icomp o = true -> exists k, compile o = MChkRt :: k.
+Proof. destruct o as [[|] n i|n|i c|i|c|h]; try discriminate; intros _; cbn; eexists; reflexivity. Qed.
+
+Lemma tstep_rtinv T a c k c' : rtinv T c -> tstep a c k = Some c' -> rtinv T c'.
+Proof.
+  intros (Hrt & Hh & Ht) H. apply tstep_cases in H. destruct H as (t & Hn & [H|[H|H]]).
+  - destruct H as (o & rest & Hc & Hd & ->). unfold rtinv. cbn [step_invoke st hist thrs]. splits; auto.
+    intros t' o' inv' ms' Hin Hc'. apply in_replace_nth in Hin. destruct Hin as [->|Hin]; [|eauto].
+    cbn in Hc'. inversion Hc'; subst. auto.
+  - destruct H as (o & inv & r & ms & Hc & ->). unfold rtinv. cbn [step_return st hist thrs]. splits; auto.
+    + intros e [<-|He]; [|auto]. cbn [e_inv e_op e_ret]. intros HT Hi.
+      destruct (Ht _ _ _ _ (nth_error_In _ _ Hn) Hc HT Hi) as [E|E].
+      * destruct (compile_icomp o Hi) as [k' Ek]. congruence.
+      * inversion E; reflexivity.
+    + intros t' o' inv' ms' Hin Hc'. apply in_replace_nth in Hin. destruct Hin as [->|Hin]; [discriminate|eauto].
+  - destruct H as (o & inv & m & ms & Hc & Hr & ->). unfold rtinv. cbn [step_micro st hist thrs]. splits; auto.
+    + apply mstep_rt_closed. exact Hrt.
+    + intros t' o' inv' ms' Hin Hc'. apply in_replace_nth in Hin. destruct Hin as [->|Hin]; [|eauto].
+      cbn in Hc'. inversion Hc'; subst. intros HT Hi. right.
+      destruct (Ht _ _ _ _ (nth_error_In _ _ Hn) Hc HT Hi) as [E|E].
+      * destruct (compile_icomp o' Hi) as [k' Ek]. rewrite Ek in E. inversion E; subst. cbn [mstep]. rewrite Hrt. reflexivity.
+      * inversion E; subst. discriminate Hr.
+Qed.
+
+Lemma run_sched_rtinv T a sched : forall c c', rtinv T c -> run_sched a c sched = Some c' -> rtinv T c'.
+Proof.
+  induction sched as [|k r IH]; intros c c' Hi H; cbn in H.
+  - inversion H; subst. exact Hi.
+  - destruct (tstep a c k) as [c1|] eqn:Ht; [|discriminate]. eapply IH; [|exact H]. eapply tstep_rtinv; eauto.
+Qed.
+
+Lemma after_rt_close_fail a s0 prog s1 c1 s2 c2 :
+  run_sched a (init s0 prog) s1 = Some c1 -> rt_closed (st c1) = true -> run_sched a c1 s2 = Some c2 ->
+  rt_closed (st c2) = true /\
+  forall e, In e (hist c2) -> clk c1 <= e_inv e -> icomp (e_op e) = true -> e_ret e = RErrClosed.
+Proof.
+  intros H1 Hrt H2. pose proof (run_sched_clkinv _ _ _ _ (init_clkinv s0 prog) H1) as [Ch Ct].
+  assert (Hi : rtinv (clk c1) c1).
+  { unfold rtinv. splits; [exact Hrt| |].
+    - intros e He HT. destruct (Ch e He). lia.
+    - intros t o inv ms Hin Hc HT. specialize (Ct _ _ _ _ Hin Hc). lia. }
+  destruct (run_sched_rtinv _ _ _ _ _ Hi H2) as (A & B & _). split; assumption.
+Qed.
+
+(* ---- once the store has been swept every registered module is closed *)
+Fixpoint ungd (i : nat) (ms : list micro) : bool :=
+  match ms with
+  | [] => false
+  | MCas j _ :: k => if j =? i then false else ungd i k
+  | MDelete j :: k => (j =? i) || ungd i k
+  | _ :: k => ungd i k
+  end.
+
+Definition reginv (c : config) : Prop :=
+  (forall i, In i (registered (st c)) -> In i (mlist (st c)) \/ is_closed (st c) i = true) /\
+  (nmap (st c) = None -> mlist (st c) = []) /\
+  (forall t o inv ms i, In t (thrs c) -> cur t = Some (o, inv, ms) -> ungd i ms = true -> is_closed (st c) i = true).
+
+Lemma ungd_compile o i : ungd i (compile o) = false.
+Proof. destruct o as [[|] n j|n|j c|j|c|h]; cbn; try reflexivity. destruct (j =? i); reflexivity. Qed.
+
+Lemma ungd_close_fail j e i : ungd i (close_fail j e) = false.
+Proof. cbn. destruct (j =? i); reflexivity. Qed.
+
+(* the rest of the operation after one micro step commits to no new unguarded delete, except after winning the CAS *)
+Lemma mstep_ungd s m k i : ungd i (snd (mstep s m k)) = true ->
+  ungd i (m :: k) = true \/ is_closed (fst (mstep s m k)) i = true.
+Proof.
+  destruct m; cbn [mstep];
+    repeat match goal with |- context [if ?b then _ else _] => destruct b eqn:?
+                         | |- context [match ?x with Some _ => _ | None => _ end] => destruct x eqn:? end;
+    cbn [fst snd]; rewrite ?ungd_close_fail; cbn [ungd]; auto; try discriminate.
+  1: { intros H. destruct (Nat.eqb_spec i0 i) as [->|Hne]; [|left; exact H].
+       right. unfold is_closed. cbn [set_closedw closedw lookup]. rewrite Nat.eqb_refl. reflexivity. }
+  all: intros H; left; rewrite H; apply orb_true_r.
+Qed.
+
+Lemma tstep_reginv a c k c' : reginv c -> tstep a c k = Some c' -> reginv c'.
+Proof.
+  intros (Hreg & Hnil & Hth) H. apply tstep_cases in H. destruct H as (t & Hn & [H|[H|H]]).
+  - destruct H as (o & rest & Hc & Hd & ->). unfold reginv. cbn [step_invoke st thrs]. splits; auto.
+    intros t' o' inv' ms' i Hin Hc'. apply in_replace_nth in Hin. destruct Hin as [->|Hin]; [|eauto].
+    cbn in Hc'. inversion Hc'; subst. rewrite ungd_compile. discriminate.
+  - destruct H as (o & inv & r & ms & Hc & ->). unfold reginv. cbn [step_return st thrs]. splits; auto.
+    intros t' o' inv' ms' i Hin Hc'. apply in_replace_nth in Hin. destruct Hin as [->|Hin]; [discriminate|eauto].
+  - destruct H as (o & inv & m & ms & Hc & Hr & ->). unfold reginv. cbn [step_micro st thrs].
+    assert (Hth' : forall t' o' inv' ms' i, In t' (replace_nth k {| todo := todo t; cur := Some (o, inv, snd (mstep (st c) m ms)) |} (thrs c)) ->
+              cur t' = Some (o', inv', ms') -> ungd i ms' = true -> is_closed (fst (mstep (st c) m ms)) i = true).
+    { intros t' o' inv' ms' i Hin Hc' Hu. apply in_replace_nth in Hin. destruct Hin as [->|Hin].
+      - cbn in Hc'. inversion Hc'; subst. destruct (mstep_ungd _ _ _ _ Hu) as [H|H]; [|exact H].
+        apply mstep_closed_mono. eapply Hth; [eapply nth_error_In; exact Hn|exact Hc|exact H].
+      - apply mstep_closed_mono. eauto. }
+    splits; [| |exact Hth'].
+    + (* registered modules are listed or closed *)
+      unfold is_closed in Hreg, Hth |- *.
+      intros i. destruct m; try discriminate Hr; cbn [mstep];
+        repeat match goal with |- context [if ?b then _ else _] => destruct b eqn:?
+                             | |- context [match nmap ?x with Some _ => _ | None => _ end] => destruct (nmap x) eqn:? end;
+        cbn [fst registered mlist set_closedw]; cbn [closedw set_closedw]; try (intros H; exact (Hreg _ H)).
+      all: match goal with
+           | |- In _ (_ :: registered _) -> _ =>
+               intros [<-|H]; [left; left; reflexivity|]; destruct (Hreg _ H); [left; right; assumption|right; assumption]
+           | |- _ -> _ \/ is_some (lookup _ ((_, _) :: _)) = true =>
+               intros H; destruct (Hreg _ H) as [H'|H']; [left; exact H'|right]; cbn [lookup];
+               match goal with |- context [if ?b then _ else _] => destruct b end; [reflexivity|exact H']
+           | |- _ -> In _ (remove ?j _) \/ _ =>
+               intros H; destruct (Nat.eq_dec i j) as [->|Hne];
+               [right; eapply Hth; [eapply nth_error_In; exact Hn|exact Hc|]; cbn [ungd]; rewrite Nat.eqb_refl; reflexivity
+               |destruct (Hreg _ H) as [H'|H']; [left; apply in_remove; auto|right; exact H']]
+           | |- _ -> In _ [] \/ _ => idtac
+           end.
+      (* sweep *) intros H. right. rewrite lookup_app_map.
+      set (live := dedup (filter (fun i => negb (is_closed (st c) i)) (mlist (st c)))).
+      destruct (mem i live) eqn:Hm; [reflexivity|]. destruct (Hreg _ H) as [H'|H']; [|exact H'].
+      destruct (is_some (lookup i (closedw (st c)))) eqn:Hcl; [reflexivity|]. exfalso.
+      assert (In i live). { apply dedup_in. apply filter_In. split; [exact H'|]. unfold is_closed. rewrite Hcl. reflexivity. }
+      apply mem_in in H0. congruence.
+    + (* nil map means empty list *)
+      destruct m; try discriminate Hr; cbn [mstep];
+        repeat match goal with |- context [if ?b then _ else _] => destruct b eqn:?
+                             | |- context [match nmap ?x with Some _ => _ | None => _ end] => destruct (nmap x) eqn:? end;
+        cbn [fst nmap mlist set_closedw]; auto; try discriminate.
+      all: try (destruct (lookup i (iname (st c))); [destruct (_ && _)|]; discriminate).
+      all: intros HH; first [congruence | apply Hnil; congruence | rewrite Hnil by congruence; reflexivity].
+Qed.
+
+Lemma run_sched_reginv a sched : forall c c', reginv c -> run_sched a c sched = Some c' -> reginv c'.
+Proof.
+  induction sched as [|k r IH]; intros c c' Hi H; cbn in H.
+  - inversion H; subst. exact Hi.
+  - destruct (tstep a c k) as [c1|] eqn:Ht; [|discriminate]. eapply IH; [|exact H]. eapply tstep_reginv; eauto.
+Qed.
+
+Definition base_reg (s : impl) : Prop :=
+  (forall i, In i (registered s) -> In i (mlist s) \/ is_closed s i = true) /\ (nmap s = None -> mlist s = []).
+
+Lemma base_reg_impl0 : base_reg impl0.
+Proof. split; cbn; [tauto|discriminate]. Qed.
+
+Lemma store_closed_all_closed a s0 prog sched c : base_reg s0 -> run_sched a (init s0 prog) sched = Some c ->
+  nmap (st c) = None -> mlist (st c) = [] /\ forall i, In i (registered (st c)) -> is_closed (st c) i = true.
+Proof.
+  intros [B1 B2] Hr Hnil.
+  assert (Hi : reginv (init s0 prog)).
+  { unfold reginv. cbn [init st thrs]. splits; auto.
+    intros t o inv ms i Hin Hc. apply in_map_iff in Hin. destruct Hin as (ops & <- & _). discriminate. }
+  destruct (run_sched_reginv _ _ _ _ Hi Hr) as (A & B & _). specialize (B Hnil). split; [exact B|].
+  intros i Hin. destruct (A i Hin) as [H|H]; [rewrite B in H; destruct H|exact H].
+Qed.
